@@ -255,7 +255,10 @@ func (d *Decoder) readUntypedMap() (interface{}, error) {
 }
 
 func (d *Decoder) readMap(dest reflect.Value) error {
-	tag, _ := d.readTag()
+	tag, err := d.readTag()
+	if err != nil {
+		return newCodecError("readMap", "reading tag", err)
+	}
 
 	switch tag {
 	case _nilTag:
